@@ -154,6 +154,8 @@ def run(tier):
     corpus = [c["body"] for c in common.load_corpus("C01")]
     if m is not None:
         lexcorr.compare(ck, m, corpus + strs, relation="lexer outcome = model outcome")
+        lexcorr.compare(ck, m, lexcorr.escape_family(rng, 0 if quick else 40), relation="lexer outcome = model outcome",
+                        key_prefix="lexesc")
         coord_alpha = ["a", "A", "_", "1", ".", "(", ")", ":", "@", " ", "\n", "#", "\ud800", "é"]
         cstrs = ["".join(s) for s in common.strings_upto(coord_alpha, 3 if quick else 4)]
         lexcorr.compare(ck, m, cstrs, coord=True, relation="coordinate lexer outcome = model outcome",
